@@ -441,13 +441,18 @@ class PoolManager(RequestMethods):
             kw["headers"] = self.headers
 
         # Record where a file-like body starts so that a redirected request can
-        # rewind it instead of sending what is left after the first attempt.
-        kw["body_pos"] = set_file_position(kw.get("body"), kw.get("body_pos"))
+        # rewind it instead of sending what is left after the first attempt
+        # (when we got here through a redirect: rewind it, or fail if that's
+        # impossible). The pool keeps its own record for its retries, it isn't
+        # handed ours: a position given to the pool means "rewind first".
+        body_pos = set_file_position(kw.get("body"), kw.pop("body_pos", None))
 
         if self._proxy_requires_url_absolute_form(u):
             response = conn.urlopen(method, url, **kw)
         else:
             response = conn.urlopen(method, u.request_uri, **kw)
+
+        kw["body_pos"] = body_pos
 
         redirect_location = redirect and response.get_redirect_location()
         if not redirect_location:
